@@ -266,9 +266,11 @@ Calls(t) ==
          \/ "herald" \in Kinds /\ \E a \in HeraldArgs(nu) :
                  (Scenario = "tmpl" => ~ \E k \in 1..Len(prog) : prog[k][2] = "add" /\ prog[k][4] = t) /\ DoHerald(t, a[1], a[2], a[3])
          \/ "add" \in Kinds /\ \E s \in Objs, m \in AddModes(nu), grp \in BOOLEAN : <<t, s>> \in AddPairs /\ DoAdd(t, s, m, grp)
-         \/ "unpack" \in Kinds /\ DoUnpack(t)
-         \/ "compress" \in Kinds /\ DoCompress(t)
-         \/ "nonadj" \in Kinds /\ DoNonAdj(t)
+         \* rewrites are specified for circuits that HAVE a transformation: while a parameter holds a value that is invalid for its
+         \* component the circuit has none, and what a rewrite does then (the code re-validates and raises) is outside the properties
+         \/ "unpack" \in Kinds /\ OpsCompile(circ[t].ops, pval) /\ DoUnpack(t)
+         \/ "compress" \in Kinds /\ OpsCompile(circ[t].ops, pval) /\ DoCompress(t)
+         \/ "nonadj" \in Kinds /\ OpsCompile(circ[t].ops, pval) /\ DoNonAdj(t)
          \/ "probeall" \in Kinds /\ DoProbeAll(t)
          \/ "edit" \in Kinds /\ DoEdit(t)
          \/ "copyf" \in Kinds /\ \E n \in Objs : DoCopyFrozen(n, t)
